@@ -629,8 +629,8 @@ impl<'p> Runner<'p> {
                             let config = Config {
                                 cases: my_cases as u32,
                                 failure_persistence: None,
-                                max_shrink_iters: 4000,
-                                max_shrink_time: 0,
+                                max_shrink_iters: 200_000,
+                                max_shrink_time: 45_000,
                                 verbose: 0,
                                 fork: false,
                                 ..Config::default()
